@@ -93,11 +93,33 @@ use vstd::std_specs::hash::*;
 #[verifier::external_body] #[verifier::accept_recursive_types(T)] pub struct Route<T> { h: std::marker::PhantomData<T> }
 #[verifier::external_body] pub struct RouterConfig { x: u8 }
 // http::Request (src/http/request.rs): only what the layers read
-pub struct Request { pub remote_addr: Option<IpAddr>, pub rest: u8 }
+pub struct Request { pub remote_addr: Option<IpAddr>, pub created_at: Option<DateTime<Utc>>, pub rest: u8 }
 pub uninterp spec fn req_host(r: Request) -> Option<Seq<char>>;
+pub uninterp spec fn req_scheme(r: Request) -> Option<Seq<char>>;
+pub uninterp spec fn req_method(r: Request) -> Seq<char>;
+pub open spec fn ostr_ref(o: Option<&str>) -> Option<Seq<char>> { match o { Some(h) => Some(h@), None => None } }
 impl Request {
-    #[verifier::external_body] pub fn host(&self) -> (r: Option<&str>) ensures (match r { Some(h) => Some(h@), None => None }) == req_host(*self) { unimplemented!() }
+    #[verifier::external_body] pub fn host(&self) -> (r: Option<&str>) ensures ostr_ref(r) == req_host(*self) { unimplemented!() }
+    #[verifier::external_body] pub fn scheme(&self) -> (r: Option<&str>) ensures ostr_ref(r) == req_scheme(*self) { unimplemented!() }
+    #[verifier::external_body] pub fn method(&self) -> (r: &str) ensures r@ == req_method(*self) { unimplemented!() }
 }
+// abstract lower layers: each answers a request with a multiset of routes (its own match_request is verified against ITS lower layer)
+macro_rules! sub_layer_shim {
+    ($name:ident) => {
+        verus! {
+        #[verifier::external_body] #[verifier::accept_recursive_types(T)] pub struct $name<T> { h: std::marker::PhantomData<T> }
+        impl<T> $name<T> {
+            pub uninterp spec fn answer(&self, request: Request) -> Multiset<RouteRef<T>>;
+            #[verifier::external_body]
+            pub fn match_request(&self, request: &Request) -> (r: Vec<RouteRef<T>>) ensures ms_of(r@) == self.answer(*request) { unimplemented!() }
+        }
+        }
+    };
+}
+sub_layer_shim!(SubMethod);
+sub_layer_shim!(SubHeader);
+sub_layer_shim!(SubHost);
+sub_layer_shim!(SubPath);
 // ASSUMED (trusted, listed): String / RouteIp keys obey the hash-table key model; a String is determined by its characters;
 // a &str key finds exactly the String key with the same characters (Borrow<str> for String)
 #[verifier::external_body] pub broadcast proof fn axiom_string_key_model() ensures #[trigger] obeys_key_model::<String>() {}
@@ -203,6 +225,70 @@ impl<T> HostMatcher<T> {
     //@| outline `routes.extend(self.any_host.match_request(request));` => `ext_routes(&mut routes, self.any_host.match_request(request));`
 }
 //@@ unrename IpMatcher
+
+// ================================================================ ip layer (C01)
+#[verifier::external_body] pub broadcast proof fn axiom_routeip_key_model2() ensures #[trigger] obeys_key_model::<RouteIp>() {}
+//@@ rename MethodMatcher SubMethod
+//@@ item src/router/request_matcher/ip.rs :: struct IpMatcher
+//@@ unrename MethodMatcher
+pub type IpItem<'a, T> = (&'a RouteIp, &'a SubMethod<T>);
+pub open spec fn ip_contrib<T>(rem: Seq<IpItem<T>>, n: int, addr: IpAddr, request: Request, x: RouteRef<T>) -> bool {
+    exists|i: int| 0 <= i < n && sat_ip(*#[trigger] rem[i].0, addr) && (*rem[i].1).answer(request).count(x) > 0
+}
+impl<T> IpMatcher<T> {
+    // membership-exact: rules without ip trigger, plus the rules of every range bucket whose range test the client address satisfies
+    //@@ fn src/router/request_matcher/ip.rs :: impl <T>IpMatcher<T> / fn match_request -> r
+    //@| opt r5:0
+    //@| opt r6:0
+    //@| ensures forall|x: RouteRef<T>| r@.contains(x) <==> (self.no_matcher.answer(*request).count(x) > 0
+    //@|     || (request.remote_addr matches Some(addr) && exists|ip: RouteIp| self.matchers@.contains_key(ip) && sat_ip(ip, addr) && #[trigger] self.matchers@[ip].answer(*request).count(x) > 0)),
+    //@| attr #[verifier::loop_isolation(false)]
+    //@| entry broadcast use vstd::seq_lib::group_to_multiset_ensures; broadcast use vstd::std_specs::hash::group_hash_axioms; broadcast use axiom_routeip_key_model2;
+    //@| loopbefore 0: let ghost any0 = routes@; let ghost gm = self.matchers@; let ghost addr = *remote_addr;
+    //@| loop 0: invariant 0 <= vf_it0_idx <= vf_it0_rem0.len(), vf_it0.remaining() == vf_it0_rem0.skip(vf_it0_idx), vf_it0_rem0.len() == gm.len(),
+    //@|         forall|x: RouteRef<T>| #[trigger] routes@.contains(x) <==> (any0.contains(x) || ip_contrib(vf_it0_rem0, vf_it0_idx, addr, *request, x)),
+    //@|     decreases gm.len() - vf_it0_idx,
+    //@| loophead 0: let ghost r0 = routes@; let ghost k = vf_it0_idx - 1; let ghost rem = vf_it0_rem0;
+    //@|     proof { assert(ip_cidr == rem[k].0 && matcher == rem[k].1); }
+    //@| looptail 0: proof {
+    //@|     let other = routes@.subrange(r0.len() as int, routes@.len() as int);
+    //@|     assert forall|x: RouteRef<T>| #[trigger] routes@.contains(x) <==> (any0.contains(x) || ip_contrib(rem, k + 1, addr, *request, x)) by {
+    //@|         if sat_ip(*ip_cidr, addr) {
+    //@|             assert(routes@ =~= r0 + other);
+    //@|             lemma_ms_add(r0, other);
+    //@|             assert(ms_of(routes@).count(x) == ms_of(r0).count(x) + ms_of(other).count(x));
+    //@|             assert(ms_of(other).count(x) == matcher.answer(*request).count(x));
+    //@|         }
+    //@|         if ip_contrib(rem, k + 1, addr, *request, x) {
+    //@|             let i = choose|i: int| 0 <= i < k + 1 && sat_ip(*#[trigger] rem[i].0, addr) && (*rem[i].1).answer(*request).count(x) > 0;
+    //@|             if i < k { assert(ip_contrib(rem, k, addr, *request, x)); }
+    //@|         }
+    //@|         if ip_contrib(rem, k, addr, *request, x) {
+    //@|             let i = choose|i: int| 0 <= i < k && sat_ip(*#[trigger] rem[i].0, addr) && (*rem[i].1).answer(*request).count(x) > 0;
+    //@|             assert(sat_ip(*rem[i].0, addr));
+    //@|         }
+    //@|         if sat_ip(*ip_cidr, addr) && matcher.answer(*request).count(x) > 0 { assert(sat_ip(*rem[k].0, addr)); }
+    //@|     }
+    //@| }
+    //@| loopend 0: proof {
+    //@|     let rem = vf_it0_rem0;
+    //@|     assert forall|x: RouteRef<T>| ip_contrib(rem, rem.len() as int, addr, *request, x) <==> (exists|ip: RouteIp| gm.contains_key(ip) && sat_ip(ip, addr) && #[trigger] gm[ip].answer(*request).count(x) > 0) by {
+    //@|         if ip_contrib(rem, rem.len() as int, addr, *request, x) {
+    //@|             let i = choose|i: int| 0 <= i < rem.len() && sat_ip(*#[trigger] rem[i].0, addr) && (*rem[i].1).answer(*request).count(x) > 0;
+    //@|             let ip = *rem[i].0;
+    //@|             assert(gm.contains_key(ip) && gm[ip] == *rem[i].1);
+    //@|             assert(gm[ip].answer(*request).count(x) > 0);
+    //@|         }
+    //@|         if exists|ip: RouteIp| gm.contains_key(ip) && sat_ip(ip, addr) && #[trigger] gm[ip].answer(*request).count(x) > 0 {
+    //@|             let ip = choose|ip: RouteIp| gm.contains_key(ip) && sat_ip(ip, addr) && #[trigger] gm[ip].answer(*request).count(x) > 0;
+    //@|             let i = choose|i: int| 0 <= i < rem.len() && *rem[i].0 == ip;
+    //@|             assert(gm[*rem[i].0] == *rem[i].1);
+    //@|             assert(sat_ip(*rem[i].0, addr));
+    //@|         }
+    //@|     }
+    //@| }
+    //@| outline `routes.extend(matcher.match_request(request));` => `ext_routes(&mut routes, matcher.match_request(request));`
+}
 
 // ================================================================ header layer (C01)
 use std::collections::BTreeSet;
